@@ -272,6 +272,39 @@ static void choose_case(Rng & rng, bool exhaustive) {
     Line d; d << "C10" << "choose" << (st + ba - 1) << ba << "|" << AIToolbox::nonZeroBallsBins(st + ba, ba + 1); d.emit();
     stat("choose_random");
 }
+// FactorGraph history: getFactor (new / existing key sets, sorted, mixed widths, non-prefix) and erase in random order; after every
+// call the neighbour lists of ALL variables and the live factors are printed (Lean: FGCursor.step, theorem fg_history_safe).
+static void fg_history_case(Rng & rng) {
+    const size_t n = (size_t)rng.range(2, 8);
+    FG g(n);
+    std::vector<bool> erased(n, false);
+    auto dump = [&](Line & l) { l << n; for (size_t v = 0; v < n; ++v) l.nats(g.getVariables(v)); };
+    auto live = [&](Line & l) { l << (size_t)g.factorSize(); for (auto it = g.begin(); it != g.end(); ++it) l.nats(g.getVariables(it)); };
+    std::vector<F::PartialKeys> seen;
+    for (int step = 0; step < 10; ++step) {
+        std::vector<size_t> alive; for (size_t v = 0; v < n; ++v) if (!erased[v]) alive.push_back(v);
+        Line l; l << "C10" << "fgstep" << n << "|"; dump(l); l << "|";
+        if (alive.size() >= 1 && (alive.size() == n ? rng.coin(3, 4) : rng.coin(2, 3))) {
+            F::PartialKeys k;
+            if (!seen.empty() && rng.coin(1, 4)) { k = rng.pick(seen); stat("fg_add_seen_key"); }
+            else { for (auto v : alive) if (rng.coin(1, 2)) k.push_back(v); if (k.empty()) k.push_back(rng.pick(alive)); stat(k.size() == 1 ? "fg_add_unary" : k.front() == alive.front() ? "fg_add_from_first" : "fg_add_non_prefix"); }
+            bool ok = true; for (auto v : k) ok = ok && !erased[v];
+            if (!ok) { k.clear(); k.push_back(rng.pick(alive)); }
+            k.shrink_to_fit();
+            const size_t before = g.factorSize();
+            g.getFactor(k); seen.push_back(k);
+            l << "add"; l.nats(k); l << (g.factorSize() != before);
+        } else {
+            const size_t a = rng.coin(1, 5) ? rng.below(n) : (alive.empty() ? rng.below(n) : rng.pick(alive));    // sometimes an already erased variable (documented no-op)
+            stat(erased[a] ? "fg_erase_again" : g.getVariables(a).empty() ? "fg_erase_isolated" : "fg_erase_connected");
+            g.erase(a); erased[a] = true;
+            l << "erase" << a;
+        }
+        l << "|"; dump(l); l << "|"; live(l); l.emit();
+    }
+    Line r; r << "C10" << "range" << "FactorGraph.variableSize_counts_active" << "|" << (g.variableSize() == (size_t)std::count(erased.begin(), erased.end(), false)); r.emit();
+}
+
 // all (n, k, lo) with 1 <= k <= n <= maxN, lo in {0, 3}: index -> shape
 static std::vector<std::array<size_t, 3>> g_subsetShapes;
 static void build_subset_shapes(size_t maxN) {
@@ -283,7 +316,7 @@ static void util_case(Rng & rng, long u) {
     if (u < (long)g_subsetShapes.size()) { auto [n, k, lo] = g_subsetShapes[u]; subset_case(k, lo, lo + n); return; }
     u -= (long)g_subsetShapes.size();
     if (u == 0) { choose_case(rng, true); return; }
-    union_case(rng); contains_case(rng); veccmp_case(rng);
+    union_case(rng); contains_case(rng); veccmp_case(rng); fg_history_case(rng);
     if (u % 3 == 0) choose_case(rng, false);
     if (u % 10 == 0) { size_t n = 8 + rng.below(3), k = 1 + rng.below(n), lo = rng.below(5); subset_case(k, lo, lo + n); }
 }
